@@ -1,6 +1,7 @@
 package balance
 
 import (
+	"time"
 	"fmt"
 	"math/big"
 
@@ -129,3 +130,32 @@ func VerifC02OnUpdate() {
 	stored, _ := db.GetNodeBalance(ids[0])
 	verifapi.Assert(bal.Credit.Cmp(&stored.Credit) == 0, "c02.reply-balance-is-stored")
 }
+
+// VerifC02Slicing: billing the same span in k slices never charges more than
+// billing it at once, and at most k-1 smallest units less (per peer).
+func VerifC02Slicing() {
+	k := verifapi.Param("k", 3)
+	price := verifapi.BigInt("price")
+	interval := verifapi.Dur("interval")
+	verifapi.Assume(interval > 0)
+	verifapi.Assume(price.Sign() > 0)
+	b := &payPerInterval{Interval: interval, CreditPerInterval: *price, now: verifapi.Now}
+	now := verifapi.Time("now")
+	verifapi.SetNow(now)
+	sum := new(big.Int)
+	var span int64
+	for j := 0; j < k; j++ {
+		d := verifapi.Dur(fmt.Sprint("d", j))
+		verifapi.Assume(d >= 0)
+		verifapi.Assume(d <= 1000000000000000000) // each slice <= ~31 years
+		span += int64(d)
+		sum.Add(sum, b.intervalCredit(now.Add(-d)))
+	}
+	whole := b.intervalCredit(now.Add(-timeDur(span)))
+	verifapi.Reach("c02.slicing")
+	verifapi.Assert(sum.Cmp(whole) <= 0, "c02.slices-never-charge-more")
+	upper := new(big.Int).Add(sum, big.NewInt(int64(k-1)))
+	verifapi.Assert(whole.Cmp(upper) <= 0, "c02.slices-lose-at-most-k-1-units")
+}
+
+func timeDur(n int64) time.Duration { return time.Duration(n) }
